@@ -2,6 +2,7 @@ package seq
 
 import (
 	"fmt"
+	"math"
 	"sort"
 
 	col "github.com/craterdog/go-collection-framework/v4/collection"
@@ -72,16 +73,19 @@ func (r *c14run[K]) observe(after string) {
 			r.Fail(after+"/state/iterate", "after %s: iteration = %s", after, r.canon(m))
 			return
 		}
+		// (keys are compared through their printed form so that a key which is not equal to
+		// itself - a NaN - is handled like any other)
 		ks := r.real.GetKeys().AsArray()
-		seen := map[K]bool{}
+		var gk, mk []string
 		for _, k := range ks {
-			if _, in := r.model[k]; !in || seen[k] {
-				r.Fail(after+"/state/keys", "after %s: GetKeys()=%v", after, strs(r.d, ks))
-				return
-			}
-			seen[k] = true
+			gk = append(gk, r.d.Str(k))
 		}
-		if len(ks) != n {
+		for k := range r.model {
+			mk = append(mk, r.d.Str(k))
+		}
+		sort.Strings(gk)
+		sort.Strings(mk)
+		if fmt.Sprint(gk) != fmt.Sprint(mk) {
 			r.Fail(after+"/state/keys", "after %s: GetKeys()=%v", after, strs(r.d, ks))
 			return
 		}
@@ -282,4 +286,16 @@ func RunC14History[K comparable](c *core.Ctx, d KeyDom[K]) {
 	if !r.Failed && c.WantSample("map/"+d.Name) {
 		c.Sample("map/"+d.Name, map[string]any{"history": r.Hist, "final": r.modelStr()})
 	}
+}
+
+// ReproMapRemoveAllNaN: RemoveAll on a Map holding a NaN key.
+func ReproMapRemoveAllNaN() (bool, string) {
+	m := col.Map[float64, int](Notation).Make()
+	m.SetValue(math.NaN(), 1)
+	m.SetValue(1.5, 2)
+	m.RemoveAll()
+	if m.GetSize() != 0 || !m.IsEmpty() || len(m.AsArray()) != 0 {
+		return true, fmt.Sprintf("after RemoveAll a Map[float64,int] that held a NaN key reports GetSize()=%d", m.GetSize())
+	}
+	return false, "RemoveAll empties a Map holding a NaN key"
 }
